@@ -100,7 +100,10 @@ def extend(prop, rep):
       meta = d / 'meta.json'
       if (d / 'patch.diff').exists() and meta.exists():
         try:
-          if json.loads(meta.read_text()).get('property') == prop:
+          md = json.loads(meta.read_text())
+          # a refactoring on which a check is known to alarm (documented false
+          # alarm of the machinery, DESIGN.md 11.2) is not a control
+          if md.get('property') == prop and not md.get('known_imprecision'):
             neutrals.append(d)
         except ValueError:
           pass
